@@ -2,7 +2,7 @@ from registry import reg, Check
 
 reg(Check(
     "C13", "c13",
-    coq_targets=["Manager/ManagerModel.vo", "Manager/ManagerCheck.vo", "Manager/ManagerProofs.vo", "Props/C13.vo"],
+    coq_targets=["Manager/ManagerModel.vo", "Manager/ManagerCheck.vo", "Manager/ManagerProofs.vo", "Manager/ManagerProofs2.vo", "Props/C13.vo"],
     assumptions=[
         "callbacks do not call back into the Manager for their own target (Remove from inside a callback deadlocks by construction) and return",
         "the injected ConnectionManager / stream return when their context is done (a Recv that ignores cancellation blocks Remove for ever)",
